@@ -1,12 +1,13 @@
 // c16: filters never hide a stored key.
-//   (P) on the implementation: no false negative for every added key (bloom generator/Contains, all
-//       bits-per-key 1..64, key sets 0..10^4), filters/tables written by a reference implementation of
-//       the format or by the pinned tree stay readable (and vice versa), every stored key of a table
-//       spanning many filter partitions is found with the filter on, and DB programs replayed under
-//       different filter settings give identical Get/Has/iteration results.
-//   (K) emits util.Hash values, generator output bytes, Contains answers (members and non-members),
-//       filter blocks of tables written by table.Writer and the reader's filter decisions as Coq
-//       cases for Codec/Bloom.v + Codec/FilterBlock.v.
+//
+//	(P) on the implementation: no false negative for every added key (bloom generator/Contains, all
+//	    bits-per-key 1..64, key sets 0..10^4), filters/tables written by a reference implementation of
+//	    the format or by the pinned tree stay readable (and vice versa), every stored key of a table
+//	    spanning many filter partitions is found with the filter on, and DB programs replayed under
+//	    different filter settings give identical Get/Has/iteration results.
+//	(K) emits util.Hash values, generator output bytes, Contains answers (members and non-members),
+//	    filter blocks of tables written by table.Writer and the reader's filter decisions as Coq
+//	    cases for Codec/Bloom.v + Codec/FilterBlock.v.
 package main
 
 import (
@@ -64,10 +65,14 @@ func guard(c *ctx, what string, rep interface{}, limit time.Duration, f func()) 
 
 func main() {
 	a := vlib.ParseArgs()
-	res := vlib.NewResult("C16", a.Out, "hash inputs (lengths 0..40 over every residue mod 4, bytes >= 0x80); key sets (sizes 0..10^4, arbitrary bytes/lengths incl. empty, near-duplicates) x bits-per-key 1..64 exhaustively (+ 0, negative, >255, int-overflowing); tables written by table.Writer (raw and internal-key/iFilter, FilterBaseLg 1..12/default/large, block sizes 16..4096); DB programs replayed under 7 filter settings; non-trivial = a table spanning >= 3 filter partitions with >= 1 empty partition, a key set with >= 2 keys, or a DB program whose tables were consulted through a filter")
+	res := vlib.NewResult("C16", a.Out, "hash inputs (lengths 0..40 over every residue mod 4, bytes >= 0x80); key sets (sizes 0..10^4, arbitrary bytes/lengths incl. empty, near-duplicates) x bits-per-key 1..64 exhaustively (+ 0, negative, >255, int-overflowing); tables written by table.Writer (raw and internal-key/iFilter, FilterBaseLg 1..12/default/large, block sizes 16..4096); DB programs replayed under 8 filter settings; non-trivial = a table spanning >= 3 filter partitions with >= 1 empty partition, a key set with >= 2 keys, or a DB program whose tables were consulted through a filter")
 	defer res.Write()
 	c := &ctx{a: a, res: res}
 
+	if a.Extra == "gengolden" {
+		genGolden()
+		return
+	}
 	if a.Replay != "" {
 		replay(c, a.Replay)
 		return
@@ -105,14 +110,13 @@ func main() {
 	for _, o := range outs {
 		cases = append(cases, o...)
 	}
-	// interleave so that the 16 shards get similar work: stride permutation, deterministic
+	// shuffle (deterministically) so that the 16 shards get similar work
 	shards := 16
-	per := (len(cases) + shards - 1) / shards
-	mixed := make([]string, 0, len(cases))
-	for s := 0; s < shards && per > 0; s++ {
-		for j := s; j < len(cases); j += shards {
-			mixed = append(mixed, cases[j])
-		}
+	sh := vlib.NewRNG(a.Seed ^ 0xc16)
+	mixed := append([]string{}, cases...)
+	for i := len(mixed) - 1; i > 0; i-- {
+		j := sh.Intn(i + 1)
+		mixed[i], mixed[j] = mixed[j], mixed[i]
 	}
 	res.WriteCases("From GL Require Import Corr.C16Run.\nFrom Coq Require Import ZArith.", "c16case", "mismatches", mixed, shards)
 }
